@@ -165,7 +165,7 @@ contract(_S + '.Request_element.pathsync', props=['C20'], params={'self': RE_OBJ
 contract('gnpy.tools.xls_utils.correct_cell_int_to_str', trusted=True, props=[], params={'v': opt(string())},
          ensures=[('text_cells_unchanged', '(result is None) == (v is None) and implies(v is not None, result == v)')], returns=opt(string()), pure=True,
          note='ASSUMED for text cells (numeric ids 3.0 -> "3" are checked by the bounded stand-in)')
-contract(_S + '.Request.update_attr', name=_S + '.Request.update_attr[is loose? cell]', props=['C20'],
+contract(_S + '.Request.update_attr', name=_S + '.Request.update_attr[is loose? cell]', props=['C20', 'C12', 'C11'],
          params={'self': obj('Request'), 'kwargs': dct_k({'request_id': string(), 'source': string(), 'destination': string(),
                                                           'is_loose': opt(string())})},
          # a request is strict only when the cell says something else than yes: blank means loose
